@@ -287,7 +287,53 @@ func (h *H) genProtoTag(ft *Ty, used map[int]bool, pos int) string {
 }
 
 // genProtoCase: a message type (struct or pointer to struct) and a value text.
+// nilPtrInCollection: a nil pointer stored as a slice element or map value (known finding: it is written as a bare
+// tag, which corrupts the rest of the message; the outcome then depends on Go's random map order).
+func nilPtrInCollection(v reflect.Value) bool {
+	switch v.Kind() {
+	case reflect.Ptr:
+		return !v.IsNil() && nilPtrInCollection(v.Elem())
+	case reflect.Slice:
+		if v.Type().Elem().Kind() == reflect.Uint8 {
+			return false
+		}
+		for i := 0; i < v.Len(); i++ {
+			e := v.Index(i)
+			if e.Kind() == reflect.Ptr && e.IsNil() || nilPtrInCollection(e) {
+				return true
+			}
+		}
+	case reflect.Map:
+		it := v.MapRange()
+		for it.Next() {
+			e := it.Value()
+			if e.Kind() == reflect.Ptr && e.IsNil() || nilPtrInCollection(e) {
+				return true
+			}
+		}
+	case reflect.Struct:
+		for i := 0; i < v.NumField(); i++ {
+			if nilPtrInCollection(v.Field(i)) {
+				return true
+			}
+		}
+	}
+	return false
+}
+
 func (h *H) genProtoCase() (*Ty, string) {
+	for {
+		t, s := h.genProtoCase1()
+		v := parseVal(t, s)
+		// a corrupted stream (nil pointer in a collection) decoded under a random map order is not reproducible
+		if hasMultiMap(t, v) && nilPtrInCollection(v) {
+			continue
+		}
+		return t, s
+	}
+}
+
+func (h *H) genProtoCase1() (*Ty, string) {
 	t := h.genProtoStruct(0, h.Intn(3) == 0)
 	if h.Intn(3) == 0 {
 		t = &Ty{K: "ptr", Elem: t}
@@ -960,11 +1006,24 @@ func runC07(h *H) {
 			continue
 		}
 		// every prefix (truncation at every byte offset)
-		limit := len(b)
-		if limit > 300 && !h.Thorough() {
-			limit = 300
+		offs := []int{}
+		full := 300
+		if h.Thorough() {
+			full = 800
 		}
-		for n := 0; n < limit; n++ {
+		if len(b) <= full {
+			for n := 0; n < len(b); n++ {
+				offs = append(offs, n)
+			}
+		} else {
+			for n := 0; n < 150; n++ {
+				offs = append(offs, n)
+			}
+			for k := 0; k < 150; k++ {
+				offs = append(offs, 150+h.Intn(len(b)-150))
+			}
+		}
+		for _, n := range offs {
 			h.DoRisky("proto.decodeany", ts, hx(b[:n]))
 		}
 		// mutations
